@@ -204,6 +204,21 @@ def build(case):
             args = [ic['Sk'].copy(), ic['Ik'].copy(), tau, gamma]
         elif name == 'SIR_heterogeneous_meanfield':
             args = [ic['Sk'].copy(), ic['Ik'].copy(), ic['Rk'].copy(), tau, gamma]
+        elif name in ('SIS_heterogeneous_pairwise', 'SIR_heterogeneous_pairwise') and case.get('dense_Ks'):
+            # the documented default form Ks=None: arrays indexed by the degree itself, 0..maxk, unobserved degrees holding zeros
+            m1 = len(ic['Sk'])
+
+            def dense(M):
+                D = np.zeros((m1, m1))
+                for a, ka in enumerate(Ks):
+                    for b, kb in enumerate(Ks):
+                        D[ka, kb] = M[a, b]
+                return D
+            if name == 'SIS_heterogeneous_pairwise':
+                args = [ic['Sk'].copy(), ic['Ik'].copy(), dense(ic['SkSl']), dense(ic['SkIl']), dense(ic['IkIl']), tau, gamma]
+            else:
+                args = [ic['Sk'].copy(), ic['Ik'].copy(), ic['Rk'].copy(), dense(ic['SkSl']), dense(ic['SkIl']), tau, gamma]
+            c.dense_Ks = True
         elif name == 'SIS_heterogeneous_pairwise':
             args = [ic['Sk'][Ks].copy(), ic['Ik'][Ks].copy(), ic['SkSl'].copy(), ic['SkIl'].copy(), ic['IkIl'].copy(), tau, gamma]
             kw['Ks'] = np.array(Ks)
@@ -326,6 +341,7 @@ def random_ode_case(r, name, nmax=None):
             case['prehistory'] = ph
     case['ic_container'] = r.choice(['list', 'list', 'set', 'tuple', 'frozenset', 'dictkeys'])
     case['pairs0'] = r.random() < 0.4
+    case['dense_Ks'] = r.random() < 0.5
     if name in ('SIS_heterogeneous_meanfield_from_graph', 'SIR_heterogeneous_meanfield_from_graph') and r.random() < 0.35 and desc['n'] >= 4:
         # degree-class models are routinely fed the raw output of nx.configuration_model (parallel edges, self-loops): the degree counts
         # edge ends.  (Only the models whose initial condition consists of degree-class counts: pair counts on a multigraph are not defined
